@@ -94,7 +94,9 @@ def _gen_cf_program(r: Rng, base: int, n: int):
         tgt = base + len(code)
         for _ in range(r.range(0, 2)):
             starts.append(len(code))
-            code.append(r.choice([0x00, 0x97, 0x9F]))          # NOP / SC / RC
+            # NOP / SC / RC, and sometimes HALT / OFF: the bare core keeps executing when asked to (waking is the
+            # machine's business), so a callee that halts must still return to its caller
+            code.append(r.choice([0x00, 0x97, 0x9F, 0x00, 0x97, 0x9F, 0xDE, 0xDF]))
         starts.append(len(code))
         code.append({"near": 0x06, "far": 0x07, "ir": 0x01}[kind])
         if kind == "near":
@@ -119,6 +121,28 @@ def generate(batch: str, r: Rng, idx: int, tier: str) -> Dict[str, Any]:
         return scn
     # bases: ordinary, the last bytes of a 64 KiB page, and both ends of the 20-bit space (relative jumps there
     # wrap modulo 2^20: backwards below 0x00000, forwards over 0xFFFFF)
+    rt = r.child("top")
+    if rt.chance(1, 8):
+        # a control transfer whose own bytes run over the top of the 20-bit space: its operand bytes are the ones that
+        # follow linearly (the first cells of the internal memory, as the metadata's byte string has them), not the
+        # bytes at 0x00000
+        form = rt.choice([[0x12, 0], [0x13, 0], [0x18, 0], [0x19, 0], [0x1A, 0], [0x1B, 0], [0x1C, 0], [0x1E, 0], [0x02, 0, 0],
+                          [0x04, 0, 0], [0x14, 0, 0], [0x16, 0, 0], [0x03, 0, 0, 0], [0x05, 0, 0, 0]])
+        ins = [form[0]] + [rt.below(256) for _ in form[1:]]
+        if form[0] in (0x03, 0x05):
+            ins[3] &= 0x0F
+        start = 0x100000 - rt.range(1, len(ins) - 1)
+        k = rt.range(0, 3)
+        base = start - k
+        code = [0x00] * k + ins
+        st = core.gen_state(r.child("state"))
+        st["regs"]["PC"] = base
+        tail = code[0x100000 - base:]
+        for i, b in enumerate(tail):
+            st["imem"][i] = b
+        low = [(b ^ rt.range(1, 255)) & 0xFF for b in tail] + [0x00] * 4
+        return {"kind": "core", "exec": "py-core", "base": base, "code": code, "starts": list(range(k)) + [k], "state": st,
+                "steps": k + 2, "vector": None, "low": low, "top": True}
     base = r.choice([0x01000, 0x0FFC0, 0x0FFE8, 0x1FFD0, 0x2FF00, 0xFFF00 - 0x400, 0x0FFF8, 0x00000, 0xFFF00, 0xFFF60])
     n = r.choice([4, 12, 30])
     code, starts, handler = _gen_cf_program(r.child("prog"), base, n)
@@ -183,6 +207,8 @@ def execute(scn: Dict[str, Any]) -> Dict[str, Any]:
     if scn.get("vector") is not None:
         v = scn["vector"]
         bus.load(0xFFFFA, [v & 0xFF, (v >> 8) & 0xFF, (v >> 16) & 0xFF])
+    if scn.get("low"):
+        bus.load(0x00000, scn["low"])
     lo, hi = scn["base"], scn["base"] + len(scn["code"]) - 1
     out: List[dict] = []
     passes = [scn["steps"]] + ([scn["steps"]] if scn.get("patches") else [])
@@ -204,7 +230,7 @@ def execute(scn: Dict[str, Any]) -> Dict[str, Any]:
 def _run_pass(emu, bus, R, lo, hi, nsteps, out) -> None:
     for _ in range(nsteps):
         pc = emu.regs.get(R.PC) & 0xFFFFF
-        if not (lo <= pc <= hi) or emu.state.halted:
+        if not (lo <= pc <= hi):
             break
         bs = [bus.rd(pc + i) for i in range(7)]
         first = bs[1] if bs[0] in core.PRES else bs[0]
